@@ -67,24 +67,18 @@ func atoi(s string) int {
 
 // ---------------------------------------------------------------- dq
 
-// runDQ: dq <p> <spare> <index> <bufpre> <bufspare>
-func runDQ(r *lib.Run) func(a []string) string {
-	return func(a []string) string {
-		p := withCap(lib.UnHex(a[0]), lib.UnHex(a[1]))
-		index := atoi(a[2])
-		pre := lib.UnHex(a[3])
-		buf := make([]byte, len(pre), len(pre)+atoi(a[4]))
-		copy(buf, pre)
-		obs := guarded(func() string {
-			q, off, err := packet.DecodeQuestion(packet.DNS(p), index, buf)
-			if err != nil {
-				return errClass(err)
-			}
-			return fmt.Sprintf("%s %d %d %d", lib.Hex(q.Name), q.Type, q.Class, off)
-		})
-		oracleDQ(r, a, p, index, obs)
-		return obs
+// rawDQ: dq <p> <spare> <index> <bufpre> <bufspare>
+func rawDQ(a []string) string {
+	p := withCap(lib.UnHex(a[0]), lib.UnHex(a[1]))
+	index := atoi(a[2])
+	pre := lib.UnHex(a[3])
+	buf := make([]byte, len(pre), len(pre)+atoi(a[4]))
+	copy(buf, pre)
+	q, off, err := packet.DecodeQuestion(packet.DNS(p), index, buf)
+	if err != nil {
+		return errClass(err)
 	}
+	return fmt.Sprintf("%s %d %d %d", lib.Hex(q.Name), q.Type, q.Class, off)
 }
 
 // oracleDQ compares with dnsmessage when the question sits at offset 12 of a message with QDCOUNT 1.
@@ -274,6 +268,18 @@ func runUpd(r *lib.Run) func(a []string) string {
 // ---------------------------------------------------------------- main
 
 func main() {
+	rawRunners["dq"] = rawDQ
+	rawRunners["rrs"] = rawRRS
+	rawRunners["pdns"] = rawPDNS
+	rawRunners["nbns"] = rawNBNS
+	rawRunners["nbdec"] = rawNBDec
+	rawRunners["nna"] = rawNNA
+	rawRunners["mdns"] = rawMDNS
+	if len(os.Args) > 1 && os.Args[1] == "-worker" {
+		workerMain()
+		return
+	}
+	defer pool.stop()
 	r := lib.Init()
 	defer r.Close()
 	rng := r.Rand()
@@ -282,15 +288,30 @@ func main() {
 		os.Stdout = dn // the library prints diagnostics with fmt.Println
 	}
 
-	r.Register("dq", runDQ(r))
+	r.Register("dq", viaWorker("dq", func(a []string, obs string) {
+		oracleDQ(r, a, lib.UnHex(a[0]), atoi(a[2]), obs)
+	}))
 	r.Register("merge", runMerge(r))
 	r.Register("upd", runUpd(r))
-	r.Register("rrs", runRRS(r))
-	r.Register("pdns", runPDNS(r))
-	r.Register("nbns", runNBNS(r))
+	r.Register("rrs", viaWorker("rrs", nil))
+	r.Register("pdns", viaWorker("pdns", func(a []string, obs string) {
+		steps := strings.Split(strings.Fields(obs)[0], ";")
+		for i, m := range strings.Split(a[0], ";") {
+			if i < len(steps) {
+				oraclePDNS(r, i, lib.UnHex(strings.Split(m, ":")[0]), steps[i], "pdns "+a[0])
+			}
+		}
+	}))
+	r.Register("nbns", viaWorker("nbns", nil))
+	r.Register("mdns", viaWorker("mdns", func(a []string, obs string) {
+		for _, ss := range strings.Split(a[1], ";") {
+			st := parseMStep(ss)
+			oracleMDNSWire(r, st, st.wire(), "mdns "+a[0]+" "+a[1])
+		}
+	}))
 	r.Register("nbenc", runNBEnc(r))
-	r.Register("nbdec", runNBDec(r))
-	r.Register("nna", runNNA(r))
+	r.Register("nbdec", viaWorker("nbdec", nil))
+	r.Register("nna", viaWorker("nna", nil))
 	if r.Replayed() {
 		return
 	}
@@ -299,5 +320,6 @@ func main() {
 	genPDNS(r, rng)
 	genNBNS(r, rng)
 	genNBName(r, rng)
+	genMDNS(r, rng)
 	genMerge(r, rng)
 }
